@@ -625,10 +625,10 @@ def run(repo, rep, tier):
     _r8_exact_fields(repo, rep)
 
 
-def _r8_exact_fields(repo, rep):
+def _r8_exact_fields(repo, rep, rid='C06.R8'):
     """C06.R8: the fields of the CIM datetime string are computed with exact
     integer arithmetic."""
-    r8 = rep.rule('C06.R8', 'CIMDateTime fields are computed with exact '
+    r8 = rep.rule(rid, 'CIMDateTime fields are computed with exact '
                   'integer arithmetic (no float path for days/microseconds)')
     dt = repo.cls(TYP, 'CIMDateTime')
     big = ('.days', '.microseconds', 'total_seconds')
